@@ -331,6 +331,18 @@ class World:
         import numbers_parser.numbers_uuid as nu
 
         nu.uuid1 = self._uuid1
+        # process-global state mutated by a dependency: sigfig.round() calls warnings.resetwarnings(),
+        # which wipes every filter of the process (ours included) in the middle of a run and makes the
+        # once-per-location registry decide what is recorded - a cold/warm divergence.  Neutralised here.
+        import sys as _sys
+
+        self._sigfig_saved = []
+        for name, mod in list(_sys.modules.items()):
+            if name == "sigfig" or name.startswith("sigfig."):
+                for attr in ("resetwarnings", "filterwarnings"):
+                    if hasattr(mod, attr):
+                        self._sigfig_saved.append((mod, attr, getattr(mod, attr)))
+                        setattr(mod, attr, lambda *a, **k: None)
         self._installed = True
 
     def uninstall(self) -> None:
@@ -346,6 +358,8 @@ class World:
         import numbers_parser.numbers_uuid as nu
 
         nu.uuid1 = _REAL_UUID1
+        for mod, attr, val in getattr(self, "_sigfig_saved", []):
+            setattr(mod, attr, val)
         self._installed = False
 
     def destroy(self) -> None:
